@@ -63,9 +63,10 @@ pub fn monitor_excludes() -> Vec<(usize, usize)> {
     let a = |x: &AtomicU64| (x as *const AtomicU64 as usize, 8usize);
     unsafe {
         real(b"write\0", &REAL_WRITE);
+        real(b"flock\0", &REAL_FLOCK);
         real(b"writev\0", &REAL_WRITEV);
     }
-    vec![a(&GETENV_CALLS), a(&RELATIVE_OPENS), a(&ALL_OPENS), a(&REAL_OPEN64), a(&REAL_OPEN), a(&REAL_OPENAT), a(&REAL_OPENAT64), a(&STD_STREAM_WRITES), a(&REAL_WRITE), a(&REAL_WRITEV), a(&MID_PROBE), a(&MID_CHANGES), a(&MID_PROBES)]
+    vec![a(&GETENV_CALLS), a(&RELATIVE_OPENS), a(&ALL_OPENS), a(&REAL_OPEN64), a(&REAL_OPEN), a(&REAL_OPENAT), a(&REAL_OPENAT64), a(&STD_STREAM_WRITES), a(&REAL_WRITE), a(&REAL_WRITEV), a(&FILE_LOCK_CALLS), a(&REAL_FLOCK), a(&MID_PROBE), a(&MID_CHANGES), a(&MID_PROBES)]
 }
 
 unsafe fn note_open(path: *const libc::c_char) {
@@ -167,6 +168,22 @@ pub unsafe extern "C" fn writev(fd: libc::c_int, iov: *const libc::iovec, n: lib
     }
     let f: F = std::mem::transmute(p);
     f(fd, iov, n)
+}
+
+/// advisory file locks (flock / fcntl F_SETLK..): kernel-wide state shared by every thread and process that opens the file
+pub static FILE_LOCK_CALLS: AtomicU64 = AtomicU64::new(0);
+static REAL_FLOCK: AtomicU64 = AtomicU64::new(0);
+
+#[no_mangle]
+pub unsafe extern "C" fn flock(fd: libc::c_int, op: libc::c_int) -> libc::c_int {
+    FILE_LOCK_CALLS.fetch_add(1, Ordering::Relaxed);
+    type F = unsafe extern "C" fn(libc::c_int, libc::c_int) -> libc::c_int;
+    let p = real(b"flock\0", &REAL_FLOCK);
+    if p == 0 {
+        return -1;
+    }
+    let f: F = std::mem::transmute(p);
+    f(fd, op)
 }
 
 /// Mid-operation probe: the injected readers are user code that runs INSIDE an operation; they compare the monitored
@@ -525,6 +542,9 @@ pub fn ops() -> Vec<Op> {
         op("default reader rule", |_| d(TimeZone::from_posix_tz("EST5EDT,M3.2.0,M11.1.0").map_err(|e| e.to_string()))),
         op("default reader missing", |_| d(TimeZone::from_posix_tz(":Nope3/Nothing").map_err(|e| e.to_string()))),
         op("TimeZone::local", |_| d(TimeZone::local().map_err(|e| e.to_string()))),
+        // the default reader on a file that exists (an absolute path into the decoy directory) and on a directory
+        op("default reader existing file", |_| d(DECOYS.get().map(|p| TimeZone::from_posix_tz(&format!(":{}/Zone", p.display())).map_err(|e| e.to_string())))),
+        op("default reader directory", |_| d(DECOYS.get().map(|p| TimeZone::from_posix_tz(&format!(":{}/Nope3", p.display())).map_err(|e| e.to_string())))),
         op("failing reader rule", |_| d(TimeZoneSettings::new(&["/zoneinfo"], |_| { probe_mid_operation(); Err("no file system".into()) }).parse_posix_tz("TST-5").map_err(|e| e.to_string()))),
         op("denied reader rule", |_| d(TimeZoneSettings::new(&["/zoneinfo", "/other"], |_| { probe_mid_operation(); Err(Box::new(std::io::Error::from(std::io::ErrorKind::PermissionDenied))) }).parse_posix_tz("EST5EDT,M3.2.0,M11.1.0").map_err(|e| e.to_string()))),
         // ambient process state the subject must not depend on
@@ -670,6 +690,7 @@ pub fn run(args: &Args) -> i32 {
             let env_before = GETENV_CALLS.load(Ordering::Relaxed);
             let rel_before = RELATIVE_OPENS.load(Ordering::Relaxed);
             let wr_before = STD_STREAM_WRITES.load(Ordering::Relaxed);
+            let lk_before = FILE_LOCK_CALLS.load(Ordering::Relaxed);
             let mid_before = MID_CHANGES.load(Ordering::Relaxed);
             regions.snapshot(&mut snap);
             let mp = MidProbe { regions: &regions, snap: &snap, exclude: &exclude };
@@ -699,6 +720,9 @@ pub fn run(args: &Args) -> i32 {
             }
             if env_after != env_before {
                 rec.violation("environment_read_monitor", case(), json!("no getenv call during an operation"), json!({"getenv_calls": env_after - env_before}));
+            }
+            if FILE_LOCK_CALLS.load(Ordering::Relaxed) != lk_before {
+                rec.violation("file_lock_monitor", case(), json!("no advisory lock is taken on a file (kernel-wide state shared with every other reader)"), json!({"flock_calls": FILE_LOCK_CALLS.load(Ordering::Relaxed) - lk_before}));
             }
             if wr_after != wr_before {
                 rec.violation("standard_stream_monitor", case(), json!("no write to the process-wide standard output / error streams"), json!({"writes": wr_after - wr_before}));
@@ -801,7 +825,7 @@ pub fn run(args: &Args) -> i32 {
     }
     rec.add(steps, histories - n as u64);
     rec.add_model(histories, steps, steps);
-    rec.set_rule("explored object = tree of operation histories (no deduplication possible: the subject exposes no state): every sequence of <= 3 steps over a 50-letter alphabet = 42 operations chosen to collide + 8 changes of ambient process state (current directory with decoy files, errno, TZ/TZDIR set at run time) + all length-4 histories over a 23-letter subset (thorough: + length 5 over 14 letters); after every operation: result digest == run-alone digest (fresh process, 6 environments: TZ/TZDIR, decoy current directory, initial errno), no changed byte in .data/.bss/TLS of the executable, no getenv call, no file opened through a relative path, no write to the standard streams, raw bytes of shared values unchanged; the injected readers repeat the memory comparison in the middle of the operation. non-trivial = histories of length >= 2");
+    rec.set_rule("explored object = tree of operation histories (no deduplication possible: the subject exposes no state): every sequence of <= 3 steps over a 52-letter alphabet = 44 operations chosen to collide + 8 changes of ambient process state (current directory with decoy files, errno, TZ/TZDIR set at run time) + all length-4 histories over a 23-letter subset (thorough: + length 5 over 14 letters); after every operation: result digest == run-alone digest (fresh process, 6 environments: TZ/TZDIR, decoy current directory, initial errno), no changed byte in .data/.bss/TLS of the executable, no getenv call, no file opened through a relative path, no write to the standard streams, raw bytes of shared values unchanged; the injected readers repeat the memory comparison in the middle of the operation. non-trivial = histories of length >= 2");
     rec.set_exhaustive(true);
     rec.outcome(&format!("{} distinct results", distinct_results.len()));
     rec.outcome("run-alone");
